@@ -330,7 +330,7 @@ func fullSnapshot() string {
 		if ue == nil {
 			continue
 		}
-		fmt.Fprintf(&b, "ue %s\n", s)
+		fmt.Fprintf(&b, "ue %s\n notify=%s\n", s, ue.NotifyUri)
 		var rgs []int
 		for rg := range ue.ReservedQuota {
 			rgs = append(rgs, int(rg))
@@ -421,6 +421,18 @@ func (r *runner) buildBody(op *Op, res *OpResult) []byte {
 		consumer["nFName"] = op.Consumer
 	}
 	m["nfConsumerIdentification"] = consumer
+	if op.ConsumerV4 != "" {
+		consumer["nFIPv4Address"] = op.ConsumerV4
+	}
+	if op.ConsumerV6 != "" {
+		consumer["nFIPv6Address"] = op.ConsumerV6
+	}
+	if op.ConsumerFqdn != "" {
+		consumer["nFFqdn"] = op.ConsumerFqdn
+	}
+	if op.Kind != "create" && op.NotifyURI != "" {
+		m["notifyUri"] = op.NotifyURI
+	}
 	if op.Kind == "create" {
 		uri := op.NotifyURI
 		if uri == "" {
